@@ -138,16 +138,6 @@ def rule_r2(repo):
             rr.instance('%s renders %s through the value-node branch' % (rname, c))
             if not repo.is_subclass(c, 'ValueDataNode'):
                 rr.fail('%s:%s' % (rname, c), fi.where, '%s is neither a NoValueDataNode nor a ValueDataNode' % c)
-        # members sliced by n_members per repetition
-        txt = norm(fi.node)
-        if 'decoded_node.members[ir * n_members:(ir + 1) * n_members]' not in txt:
-            rr.fail('%s:member-slice' % rname, fi.where, 'replication members are not sliced as members[ir * n_members:(ir + 1) * n_members]')
-        if 'decoded_node.descriptor.n_repeats' not in txt or 'decoded_values[decoded_node.factor.index]' not in txt:
-            rr.fail('%s:repeats' % rname, fi.where, 'the number of repetitions is not n_repeats (fixed) / the decoded factor value (delayed)')
-        # attributes are rendered for every value node that has them
-        fv = repo.own_method(rname, '_render_template_data_value_node')
-        if "hasattr(decoded_node, 'attributes')" not in norm(fv.node):
-            rr.fail('%s:attributes' % rname, fv.where, 'value nodes do not render their attributes')
     # key contract of nested JSON
     writer_keys = set()
     jr = repo.cls('NestedJsonRenderer')
@@ -177,30 +167,8 @@ def rule_r2(repo):
     for k in ('value', 'members', 'factor', 'attributes', 'virtual', 'id', 'name'):
         if k not in reader_keys:
             rr.fail('nested-json:reader-key:%s' % k, reader.where, 'the nested-JSON reader no longer consults %r' % k)
-    # associated values precede their owner on both sides: reader appends attribute values, then the value
-    pv = None
-    for n in ast.walk(reader.node):
-        if isinstance(n, ast.FunctionDef) and n.name == 'process_value_parameter':
-            pv = n
-    if pv is None:
-        raise AnalysisError('utils.template_data_nested_json_to_flat_json: helper process_value_parameter vanished')
-    order = []
-    for s in pv.body:
-        t = norm(s)
-        if "attr['value']" in t:
-            order.append('attributes')
-        if "data.append(parameter['value'])" in t:
-            order.append('value')
-    rr.instance('nested JSON reader emits attribute values before the owner value: %s' % order)
-    if order != ['attributes', 'value']:
-        rr.fail('nested-json:attribute-order', '%s:%d' % (reader.module.relpath, pv.lineno), 'order is %s; the flat data carry an associated field before its owner' % order)
-    if "'virtual' not in attr" not in norm(pv):
-        rr.fail('nested-json:virtual', '%s:%d' % (reader.module.relpath, pv.lineno), 'virtual attributes (bitmapped values shown under their owner) are not skipped')
-    # the writer marks every attribute virtual except associated fields
-    fv = repo.own_method('NestedJsonRenderer', '_render_template_data_value_node')
-    if 'is_attribute and (not isinstance(descriptor, AssociatedDescriptor))' not in norm(fv.node):
-        rr.fail('nested-json:virtual-writer', fv.where, "the writer does not mark exactly the non-associated attributes 'virtual'")
-    rr.require_floor(14)
+    # (order of attribute / owner values and the treatment of virtual attributes are decided semantically by the fold in C09.R5)
+    rr.require_floor(10)
     return rr
 
 
@@ -297,28 +265,8 @@ def rule_r3(repo):
         pl = [f for f, n in _format_strings(repo.own_method(rname, '_render_bufr_message').node) if ' = ' in f]
         if pl != ['{} = {!r}']:
             rr.fail('%s:parameter-line' % rname, repo.own_method(rname, '_render_bufr_message').where, "parameter lines are %s, the reader splits on ' = ' and literal_evals the value" % pl)
-    # nested text: attribute marker, replication comment, dots for the factor
-    nt = repo.cls('NestedTextRenderer')
-    allf = []
-    for fi in nt.methods.values():
-        allf += [f for f, n in _format_strings(fi.node)]
-    rr.instance('nested text line formats: %s' % allf)
-    if not any(f.startswith('{}# ---') for f in allf):
-        rr.fail('nested-text:replication-comment', nt.methods['_render_template_data_nodes'].where, "replication header lines no longer start with '#' (the reader skips lines starting with '#')")
-    vn = repo.own_method('NestedTextRenderer', '_render_template_data_value_node')
-    if "'-> ' if is_attribute else ''" not in norm(vn.node):
-        rr.fail('nested-text:attribute-marker', vn.where, "attribute lines are not marked with '-> ' (the reader keeps only '-> A' lines among them)")
-    if '{}{}{} {} {!r}' not in [f for f, n in _format_strings(vn.node)]:
-        rr.fail('nested-text:value-line', vn.where, 'value lines are not `indent marker descriptor description repr(value)`')
-    rd = repo.func('utils', 'subsets_nested_text_to_flat_json')
-    t = norm(rd.node)
-    for needle, why in (("line.startswith('#')", 'replication comments'), ("line.startswith('->') and (not line.startswith('-> A'))", 'virtual attributes'),
-                        ("line.startswith('3')", 'sequence headers'), ("' ' not in line", 'value-less entries'),
-                        ("data_all_subsets[-1].insert(-1, value)", 'associated field before its owner')):
-        rr.instance('nested text reader handles %s' % why)
-        if needle not in t:
-            rr.fail('nested-text:reader:%s' % why, rd.where, 'the nested-text reader no longer handles %s (%s)' % (why, needle))
-    rr.require_floor(12)
+    # (the nested-text line kinds are decided semantically by the fold in C09.R5)
+    rr.require_floor(8)
     return rr
 
 
@@ -497,6 +445,26 @@ def rule_r5(repo):
             diff = [(i, a, b) for i, (a, b) in enumerate(zip(got, want)) if a != b][:3] if isinstance(got, list) else got
             rr.fail('nested-text:roundtrip', rd.where, 'the nested text reads back as %d values, the flat data have %d; first differences (index, read, flat): %s' % (
                 len(got) if isinstance(got, list) else -1, len(want), diff), witness={'lines': lines})
+    # ---- nested JSON of the same tree
+    jn = repo.own_method('NestedJsonRenderer', '_render_template_data_nodes')
+    jr = repo.func('utils', 'template_data_nested_json_to_flat_json')
+    it = TextInterp(repo, 'NestedJsonRenderer')
+    res = it.run_function(jn, lambda: {'self': Obj('NestedJsonRenderer', {}), 'decoded_nodes': list(nodes), 'decoded_descriptors': list(descs),
+                                       'decoded_values': list(vals)}, self_class='NestedJsonRenderer')
+    if len(res) != 1 or not res[0].ok or not isinstance(res[0].value, list):
+        raise AnalysisError('NestedJsonRenderer._render_template_data_nodes could not be folded: %s' % [r.describe() for r in res])
+    tree = res[0].value
+    rr.instance('nested JSON: %d top-level entries rendered' % len(tree))
+    it2 = TextInterp(repo, None)
+    res2 = it2.run_function(jr, lambda: {'template_data_value': [tree]})
+    if len(res2) != 1:
+        raise AnalysisError('template_data_nested_json_to_flat_json forks on a concrete tree')
+    r = res2[0]
+    got = r.value[0] if r.ok and isinstance(r.value, list) and r.value else None
+    if not r.ok or got != vals:
+        diff = [(i, a, b) for i, (a, b) in enumerate(zip(got or [], vals)) if a != b][:3]
+        rr.fail('nested-json:roundtrip', jr.where, 'the nested JSON reads back as %s values (%s), the flat data have %d; first differences (index, read, flat): %s' % (
+            len(got) if isinstance(got, list) else '?', 'ok' if r.ok else r.exc.cls, len(vals), diff))
     # one value shape at a time, so that a failing shape is named
     vn = repo.own_method('NestedTextRenderer', '_render_template_data_value_node')
     shapes = [0, 7, -3, 1.5, -0.25, 1e-05, 1e+20, None, b'ABC', b"ST JOHN'S", b'say "hi"', b'both \' and "', b'a b', b" b'x", b'\xe9\xff', b'', b'trailing ', b'#x', b'3', b'-> A']
